@@ -44,9 +44,11 @@ def run(ctx):
         sb.model_check(ctx, "c17-multi", sb.consts("c17", ["multi"], **dict(b, MaxEnv=2)), invs, timeout=900)
         nsim, nrandom = 60, 120
     else:
-        b = dict(MaxFail=1, MaxCrash=1, MaxFaults=2, MaxRec=2, MaxEnv=2, MaxSync=1, MaxConc=2)
-        for name in ("pairn", "pairx", "pairm", "multi"):
-            sb.model_check(ctx, "c17-" + name, sb.consts("c17", [name], **b), invs, timeout=3000, heap="10g", workers=8)
+        b = dict(MaxFail=1, MaxCrash=1, MaxFaults=2, MaxRec=1, MaxEnv=2, MaxSync=1, MaxConc=2)
+        sb.model_check(ctx, "c17-pairn", sb.consts("c17", ["pairn"], **b), invs, timeout=3000, heap="10g", workers=8)
+        sb.model_check(ctx, "c17-pairx", sb.consts("c17", ["pairx"], **b), invs, timeout=3000, heap="10g", workers=8)
+        sb.model_check(ctx, "c17-pairm", sb.consts("c17", ["pairm"], **dict(b, MaxFaults=1, MaxEnv=1)), invs, timeout=3000, heap="10g", workers=8)
+        sb.model_check(ctx, "c17-multi", sb.consts("c17", ["multi", "multin"], **dict(b, MaxRec=2)), invs, timeout=3000, heap="10g", workers=8)
         nsim, nrandom = 1500, 3000
     s1, model_k = sb.export_c11(ctx, SHARED, 1, 5, "single")
     kdrift = sb.check_K(ctx, dry, model_k)
@@ -62,7 +64,6 @@ def run(ctx):
         sb.validate(ctx, t, "C17_")
     if kdrift:
         raise vlib.Infra(kdrift)
-    ctx.cov["evaluations"] += nrandom
     ctx.cov["edges_replayed_on_impl"] = len(scheds)
     ctx.cov["exhaustive"] = False
 
